@@ -1,5 +1,9 @@
 import Alpen.Model.Str
 import Alpen.Model.Walker
+import Alpen.Model.Clean
+import Alpen.Model.PostAdd
+import Alpen.Model.Check
+import Alpen.Model.Reserve
 /-!
 Line-protocol driver: one operation per line on stdin, one canonical answer line on
 stdout.  Strings travel as comma-separated code points (`-` = empty string).
@@ -16,6 +20,9 @@ def decStr (t : String) : Option Str :=
 def encStr (s : Str) : String :=
   if s.isEmpty then "-" else ",".intercalate (s.map (fun c => toString c.toNat))
 
+def decOptStr (t : String) : Option (Option Str) :=
+  if t = "none" then some none else (decStr t).map some
+
 def encBool (b : Bool) : String := if b then "1" else "0"
 
 def decNats (t : String) : Option (List Nat) :=
@@ -28,6 +35,31 @@ def decBool (t : String) : Option Bool :=
   if t = "1" then some true else if t = "0" then some false else none
 
 def decInt (t : String) : Option Int := t.toInt?
+
+def decOptNat (t : String) : Option (Option Nat) :=
+  if t = "-" then some none else t.toNat?.map some
+
+def decOptInt (t : String) : Option (Option Int) :=
+  if t = "-" then some none else t.toInt?.map some
+
+/-- records separated by `,`, fields by `:` -/
+def decRecs {α} (f : List String → Option α) (t : String) : Option (List α) :=
+  if t = "-" then some [] else (t.splitOn ",").mapM (fun x => f (x.splitOn ":"))
+
+def decDCopy : List String → Option DCopy
+  | [i, f, h, w, s, fs] => do
+      pure ⟨← i.toNat?, ← f.toNat?, ← Has.ofString h, ← Wants.ofString w, ← decOptNat s, ← decOptNat fs⟩
+  | _ => none
+
+def decPNode : List String → Option PNode
+  | [i, g] => do pure ⟨← i.toNat?, ← g.toNat?⟩
+  | _ => none
+def decPEdge : List String → Option PEdge
+  | [i, a, b, s, c] => do pure ⟨← i.toNat?, ← a.toNat?, ← b.toNat?, ← decBool s, ← decBool c⟩
+  | _ => none
+def decPCopy : List String → Option PCopy
+  | [i, f, n, h, w] => do pure ⟨← i.toNat?, ← f.toNat?, ← n.toNat?, ← Has.ofString h, ← Wants.ofString w⟩
+  | _ => none
 
 /-- `id:int` pairs -/
 def decPairsNI (t : String) : Option (List (Nat × Int)) :=
@@ -58,6 +90,35 @@ def pure1 (toks : List String) : Option String :=
   | ["avsel", now, minDays, batch] => do
       let now ← decInt now; let md ← decInt minDays; let b ← decPairsNI batch
       pure (encNats (autoVerifySelect now md b))
+  | ["seldel", avail, minK, arch, pend, copies] => do
+      let a ← decOptInt avail; let m ← decInt minK; let ar ← decBool arch
+      let p ← decNats pend; let cs ← decRecs decDCopy copies
+      let sel := selectDelete a m ar (fun f => p.contains f) cs
+      let bs := batches10 sel
+      pure (if bs.isEmpty then "-" else "|".intercalate (bs.map (fun b => encNats (b.map (·.id)))))
+  | ["postadd", nodes, edges, copies, node, file] => do
+      let ns ← decRecs decPNode nodes; let es ← decRecs decPEdge edges; let cs ← decRecs decPCopy copies
+      let n ← node.toNat?; let f ← file.toNat?
+      let (reqs, cs') := postAdd ns es cs n f
+      let rs := if reqs.isEmpty then "-" else ",".intercalate (reqs.map (fun r => s!"{r.file}:{r.nodeFrom}:{r.groupTo}"))
+      let cc := if cs'.isEmpty then "-" else ",".intercalate (cs'.map (fun c => s!"{c.id}:{c.has.toString}:{c.wants.toString}"))
+      pure s!"{rs} {cc}"
+  | ["stateon", nodes, copies, group, file] => do
+      let ns ← decRecs decPNode nodes; let cs ← decRecs decPCopy copies
+      pure (stateOnNode ns cs (← group.toNat?) (← file.toNat?)).toString
+  | ["verdict", ex, st, len, dig, rsz, rdg] => do
+      let dg ← decOptStr dig
+      let o : Observed := ⟨← decBool ex, ← decBool st, ← len.toNat?, dg⟩
+      let rs ← decOptNat rsz
+      let rd ← decOptStr rdg
+      pure (match checkVerdict o rs rd with | none => "none" | some h => h.toString)
+  | ["md5lens", bs, bpc, len] => do
+      let bs ← bs.toNat?; let bpc ← bpc.toNat?; let len ← len.toNat?
+      let content : Bytes := List.replicate len 0
+      pure (encNats ((md5Blocks bs bpc (len + 1) content).map List.length))
+  | ["valmd5", s] => do
+      let s ← decStr s
+      pure (match validateMd5 s with | none => "none" | some d => encStr d)
   | _ => none
 
 end Drv
